@@ -78,6 +78,7 @@ type WeatherSpec struct {
 	Days          []WeatherDay
 	NoneValue     float64
 	NumHeader     int
+	EndsMidYear   bool // the series stops some days after the last day the run needs, inside a year
 	StartsMidYear bool // the series begins inside the start year, before the simulation start
 	WindHeight    float64
 	Altitude      float64
@@ -926,6 +927,11 @@ func genGWSeries(sc *Scenario, r *Rng) {
 	k := r.Range(1, 14)
 	d := sc.Start.AddDays(-r.Range(-200, 400)) // may start before or after the simulation start
 	level := float64(r.Range(10, (n+5)*10)) / 10
+	// a quarter of the series move among round levels down to 45 dm, i.e. also exactly on the depth classes of the hydraulic
+	// table (8, 9, 20, 30, 35 dm) and below the profile, with short steps so that a level is left and reached again
+	r6 := NewRng(mix(mix(sc.Seed, uint64(sc.Index)), 3535))
+	classy := r6.Bool(0.25)
+	round := []float64{8, 9, 20, 30, 35, 7.9, 8.1, 19.9, 20.1, 29.9, 30.1, 34, 34.9, 35.1, 36, 40, 45, 25, 12}
 	for i := 0; i < k; i++ {
 		sc.GWSeries = append(sc.GWSeries, GWPoint{d, level})
 		d = d.AddDays(r.Range(1, 200))
@@ -935,6 +941,18 @@ func genGWSeries(sc *Scenario, r *Rng) {
 			level = sc.GWSeries[r.Intn(len(sc.GWSeries))].Level
 		default:
 			level = float64(r.Range(5, (n+8)*10)) / 10
+		}
+		if classy {
+			level = round[r6.Intn(len(round))]
+			if r6.Bool(0.5) {
+				d = sc.GWSeries[len(sc.GWSeries)-1].D.AddDays(r6.Range(1, 3)) // a step within a few days: the level itself is used
+			}
+		}
+	}
+	if classy && len(sc.GWSeries) < 8 {
+		for len(sc.GWSeries) < 10 {
+			last := sc.GWSeries[len(sc.GWSeries)-1]
+			sc.GWSeries = append(sc.GWSeries, GWPoint{last.D.AddDays(r6.Range(1, 40)), round[r6.Intn(len(round))]})
 		}
 	}
 	// a third of the series are shifted as a whole so that one of their entries (the first, the last or any) sits on, one
@@ -984,6 +1002,16 @@ func genWeather(sc *Scenario, r *Rng, p Profile) {
 		firstYear -= r.Range(1, 2)
 	}
 	lastYear := sc.End.Y + 1 // cover the (possibly extended) last day
+	// 15 % of the multi-year series stop some days after the last day the run can need instead of running on to the end
+	// of the following year (the readers accept a partial last year)
+	lastDay := Date{}
+	if r7 := NewRng(mix(mix(sc.Seed, uint64(sc.Index)), 1231)); w.Layout != 0 && !p.NoMidYearStart && r7.Bool(0.15) {
+		// only where the run is not prolonged beyond its end date (annual output date of the end year before the end date)
+		if a := (Date{sc.End.Y, sc.AnnualMonth, sc.AnnualDay}); a.Zeit() < sc.End.Zeit() {
+			lastDay = sc.End.AddDays(r7.Range(4, 40))
+			w.EndsMidYear = true
+		}
+	}
 	// climate
 	cold := r.Bool(p.ColdClimate)
 	hot := !cold && r.Bool(0.2)
@@ -1013,7 +1041,7 @@ func genWeather(sc *Scenario, r *Rng, p Profile) {
 		firstDate = firstDate.AddDays(r4.Range(1, sc.Start.DOY()-15))
 		w.StartsMidYear = true
 	}
-	for d := firstDate; d.Y <= lastYear; d = d.AddDays(1) {
+	for d := firstDate; d.Y <= lastYear && (lastDay.Y == 0 || d.Zeit() <= lastDay.Zeit()); d = d.AddDays(1) {
 		doy := float64(d.DOY())
 		ph := 2 * math.Pi * (doy - 110) / 365
 		if south {
